@@ -299,6 +299,8 @@ pub struct Exec {
     /// every announced call after the handshake: (client, call, path1, path2)
     pub calls: Vec<(usize, String, String, String)>,
     pub ext: Vec<ExtResult>,
+    /// hash of (normalised hub tree incl. staging files, per-server progress) after every step
+    pub state_keys: Vec<u64>,
 }
 
 pub struct RunOpts<'a> {
@@ -431,13 +433,14 @@ pub fn run_schedule(env: &WorkerEnv, sys: &System, opts: &RunOpts) -> Exec {
         s.trace.clear();
     }
 
-    let mut ex = Exec { choices: Vec::new(), points: Vec::new(), ops: Vec::new(), final_tree: Files::new(), deadlock: false, exit_codes: vec![None; n], signals: vec![None; n], instant_violation: None, reply_errors: Vec::new(), steps: 0, labels: Vec::new(), killed: None, kill_pre_tree: None, calls: Vec::new(), ext: Vec::new() };
+    let mut ex = Exec { choices: Vec::new(), points: Vec::new(), ops: Vec::new(), final_tree: Files::new(), deadlock: false, exit_codes: vec![None; n], signals: vec![None; n], instant_violation: None, reply_errors: Vec::new(), steps: 0, labels: Vec::new(), killed: None, kill_pre_tree: None, calls: Vec::new(), ext: Vec::new(), state_keys: Vec::new() };
     let mut current: Option<usize> = None;
     let mut preemptions = 0u32;
     let mut lock_holder: Option<usize> = None;
     // a lock waiter whose retry just failed stays disabled until some OTHER thread has taken a step
     // (the holder heuristic can be wrong when the code under test uses more than one lock inode)
     let mut retry_failed: Vec<bool> = vec![false; n];
+    let mut progress: Vec<u32> = vec![0; n];
     let mut op_index: Vec<Vec<usize>> = vec![Vec::new(); n]; // per client: indices into ex.ops
     let mut step_no = 0usize;
     loop {
@@ -606,10 +609,24 @@ pub fn run_schedule(env: &WorkerEnv, sys: &System, opts: &RunOpts) -> Exec {
                 }
             }
         }
+        // system state after this step: hub tree (staging names normalised) + how far each server has got
+        progress[t] += 1;
+        let snap = snapshot_hub(&env.root);
+        {
+            use std::hash::{Hash as _, Hasher};
+            let mut hh = std::collections::hash_map::DefaultHasher::new();
+            for (p, b) in &snap {
+                norm_name(p).hash(&mut hh);
+                b.hash(&mut hh);
+            }
+            progress.hash(&mut hh);
+            lock_holder.hash(&mut hh);
+            ex.state_keys.push(hh.finish());
+        }
         // C10: observe the hub after every step
         if let Some(f) = opts.instant {
             if ex.instant_violation.is_none() {
-                if let Some((k, m)) = f(&snapshot_hub(&env.root)) {
+                if let Some((k, m)) = f(&snap) {
                     ex.instant_violation = Some((k, format!("after step {step_no} ({}): {m}", ex.labels.last().cloned().unwrap_or_default())));
                 }
             }
@@ -746,6 +763,8 @@ pub struct ExploreOut {
     pub violations: Vec<Violation>,
     pub outcomes: BTreeSet<String>,
     pub max_points: usize,
+    /// distinct (hub tree, per-server progress, lock holder) states seen across all schedules
+    pub distinct_states: u64,
 }
 
 /// Explore every schedule of `sys` with at most `bound` preemptions (and at most one kill if allowed).
@@ -767,6 +786,7 @@ pub fn explore(
     let viols: Mutex<Vec<Violation>> = Mutex::new(Vec::new());
     let outcomes: Mutex<BTreeSet<String>> = Mutex::new(BTreeSet::new());
     let maxp = AtomicU64::new(0);
+    let seen_states: Mutex<std::collections::HashSet<u64>> = Mutex::new(std::collections::HashSet::new());
     std::thread::scope(|sc| {
         for env in envs {
             sc.spawn(|| {
@@ -797,6 +817,9 @@ pub fn explore(
                     maxp.fetch_max(ex.points.len() as u64, Ordering::Relaxed);
                     if let Ok(mut o) = outcomes.lock() {
                         o.insert(outcome_of(&ex));
+                    }
+                    if let Ok(mut g) = seen_states.lock() {
+                        g.extend(ex.state_keys.iter().copied());
                     }
                     let vs = judge(&ex);
                     let violated = !vs.is_empty();
@@ -832,7 +855,7 @@ pub fn explore(
             });
         }
     });
-    ExploreOut { schedules: schedules.load(Ordering::Relaxed), steps: steps.load(Ordering::Relaxed), violations: viols.into_inner().unwrap_or_default(), outcomes: outcomes.into_inner().unwrap_or_default(), max_points: maxp.load(Ordering::Relaxed) as usize }
+    ExploreOut { schedules: schedules.load(Ordering::Relaxed), steps: steps.load(Ordering::Relaxed), violations: viols.into_inner().unwrap_or_default(), outcomes: outcomes.into_inner().unwrap_or_default(), max_points: maxp.load(Ordering::Relaxed) as usize, distinct_states: seen_states.into_inner().map(|g| g.len() as u64).unwrap_or(0) }
 }
 
 // ───────────────────────── sequential reference hub + linearizability ─────────────────────────
